@@ -126,24 +126,28 @@ def afterScan (e : Env) (t : Tid) (w : Wid) (r : Option (Pend × List Pend) × L
 def Env.submit (e : Env) (m : Meth) : Env × Nat :=
   ({ e with calls := e.calls ++ [(m, .queued)], queue := e.queue ++ [e.calls.length] }, e.calls.length)
 
-/-- After `get`: the verdict (courier_utils.py:630) and, if negative, `_check_heartbeat` (568–583). -/
+/-- `_check_heartbeat` (courier_utils.py:568–583) sends a ping iff none was sent yet, or the last one
+is finished and older than the heartbeat interval. -/
+def needPing (e : Env) (w : Wid) : Bool :=
+  match (e.clients w).hb with
+  | none => true
+  | some h => (e.callSt h.call).done && decide (e.now - h.time > Registry.hbInterval)
+
+/-- The ping: a new call, remembered as `_heartbeat` and in `_pendings` (it occupies the worker's slot). -/
+def pingEnv (e : Env) (w : Wid) : Env :=
+  { e with calls := e.calls ++ [(.ping w, .queued)], queue := e.queue ++ [e.calls.length],
+           clients := upd e.clients w { pend := (e.clients w).pend ++ [⟨e.calls.length, e.now⟩],
+                                        hb := some ⟨e.calls.length, e.now⟩ } }
+
+/-- After `get`: the verdict (courier_utils.py:630) and, if negative, `_check_heartbeat`. -/
 def finishAlive (e : Env) (t : Tid) (w : Wid) (now0 last : Time) : Env :=
   if Registry.fresh now0 last e.thr then setMic e t (.exit true)
-  else
-    let c := e.clients w
-    let send := match c.hb with
-      | none => true
-      | some h => (e.callSt h.call).done && decide (e.now - h.time > Registry.hbInterval)
-    if send then
-      let (e1, id) := e.submit (.ping w)
-      let p : Pend := ⟨id, e.now⟩
-      setMic { e1 with clients := upd e1.clients w { pend := c.pend ++ [p], hb := some p } } t (.exit false)
-    else setMic e t (.exit false)
+  else setMic (if needPing e w then pingEnv e w else e) t (.exit false)
 
 /-- `worker.call(..)` inside its `with self._states_lock:` (courier_utils.py:652–656). -/
 def submitPlain (e : Env) (w : Wid) : Env :=
-  let (e1, id) := e.submit (.plain w)
-  { e1 with clients := upd e1.clients w { e1.clients w with pend := (e1.clients w).pend ++ [⟨id, e.now⟩] } }
+  { e with calls := e.calls ++ [(.plain w, .queued)], queue := e.queue ++ [e.calls.length],
+           clients := upd e.clients w { e.clients w with pend := (e.clients w).pend ++ [⟨e.calls.length, e.now⟩] } }
 
 def setCall (e : Env) (id : Nat) (s : CSt) : Env :=
   { e with calls := e.calls.modify id fun c => (c.1, s) }
@@ -196,37 +200,37 @@ def ostep (pw : Pid → List Wid) (x : X) (t : Tid) (b : Bool) (f : Env → Env)
 
 /-- One step of thread `t` of the product (`none`: blocked or finished). -/
 def xstep? (pw : Pid → List Wid) (x : X) (t : Tid) : Option X :=
-  let e := x.env
   match (x.base.T t).cur with
   | some (cl, _) =>
     match cl.pc with
     | .cEnter => ostep pw x t false fun e => setMic e t (.cap (capacity e cl.w))
     | .cExit =>
-      match e.mic t with
+      match x.env.mic t with
       | .cap b => ostep pw x t b fun e => setMic e t .idle
       | _ => none
     | .iEnter => ostep pw x t false fun e => afterScan e t cl.w (scan e.callSt (e.clients cl.w).pend [])
     | .iExit =>
-      match e.mic t with
+      match x.env.mic t with
       | .exit b => ostep pw x t b fun e => setMic e t .idle
       | .foldAcq p todo keep =>
-        if e.rl = none then
-          some ⟨x.base, setMic { e with rl := some t, reg := Registry.refresh e.reg cl.w p.time } t (.foldRel todo keep)⟩
+        if x.env.rl = none then
+          some ⟨x.base, setMic { x.env with rl := some t, reg := Registry.refresh x.env.reg cl.w p.time } t
+            (.foldRel todo keep)⟩
         else none
       | .foldRel todo keep =>
-        let e1 := { e with rl := none }
-        some ⟨x.base, afterScan e1 t cl.w (scan e1.callSt todo keep)⟩
+        some ⟨x.base, afterScan { x.env with rl := none } t cl.w (scan x.env.callSt todo keep)⟩
       | .getAcq now0 =>
-        if e.rl = none then some ⟨x.base, setMic { e with rl := some t } t (.getRel now0 (Registry.get e.reg cl.w))⟩
+        if x.env.rl = none then
+          some ⟨x.base, setMic { x.env with rl := some t } t (.getRel now0 (Registry.get x.env.reg cl.w))⟩
         else none
-      | .getRel now0 last => some ⟨x.base, finishAlive { e with rl := none } t cl.w now0 last⟩
+      | .getRel now0 last => some ⟨x.base, finishAlive { x.env with rl := none } t cl.w now0 last⟩
       | _ => none
     | .kEnter => ostep pw x t false fun e => submitPlain e cl.w
     | _ => ostep pw x t false id
   | none =>
     match (x.base.T t).script with
     | _ :: _ => ostep pw x t false id
-    | [] => (estep e t).map fun e' => ⟨x.base, e'⟩
+    | [] => (estep x.env t).map fun e' => ⟨x.base, e'⟩
 
 /-- Reachability in the product. -/
 inductive XReach (pw : Pid → List Wid) (x0 : X) : X → Prop where
